@@ -259,6 +259,41 @@ def _run2(seed, tape, opts, w):
         w.inputs = [answer] * 3
     if output_file is not None:
         rargs += ["--output-file", output_file]
+    # environment: while the transfer is under way somebody else (another
+    # `wormhole receive` in the same directory, say) creates the announced
+    # destination as a directory / a file
+    env = tape.pick(("none", "none", "none", "mkdir", "file"), "env") \
+        if kind == "file" and not dest_preexisted else "none"
+    env_paths = set()
+    env_state = {"left": None}
+
+    def env_tick():
+        if env == "none" or env_state["left"] == -1:
+            return
+        if env_state["left"] is None:
+            if os.path.exists(dest_tmp) and not tmp_preexisted:
+                env_state["left"] = tape.choose(40, "env_after")
+            return
+        if env_state["left"] > 0:
+            env_state["left"] -= 1
+            return
+        env_state["left"] = -1
+        if os.path.lexists(dest):
+            return
+        sim.ev("env", env)
+        sim.note("fault.destination_created_by_someone_else_mid_transfer")
+        if env == "mkdir":
+            os.makedirs(dest)
+            with open(os.path.join(dest, "theirs.txt"), "wb") as f:
+                f.write(b"belongs to the other session")
+            env_paths.update((os.path.relpath(dest, base),
+                              os.path.relpath(os.path.join(dest, "theirs.txt"),
+                                              base)))
+        else:
+            with open(dest, "wb") as f:
+                f.write(b"written by someone else")
+            env_paths.add(os.path.relpath(dest, base))
+    sim.after_step = env_tick
     w.receive(*(rargs + [code]))
     sim.run(40000, until=lambda: "receive" in w.results and "sender" in result,
             max_time=300)
@@ -293,6 +328,25 @@ def _run2(seed, tape, opts, w):
         b, a = before.get(k), after.get(k)
         if b != a:
             changed.append(k)
+    if env_paths:
+        # what the other party created is not the receiver's doing -- unless
+        # the receiver then changed or removed it
+        for k in list(changed):
+            if k in env_paths and after.get(k) is not None and (
+                    after[k][0] == "dir" or after[k][1] in (
+                        b"belongs to the other session",
+                        b"written by someone else")):
+                changed.remove(k)
+        for k in sorted(env_paths):
+            a = after.get(k)
+            if a is None or (a[0] == "file" and a[1] not in (
+                    b"belongs to the other session",
+                    b"written by someone else")):
+                if env == "mkdir":
+                    V("C05.directory_deleted", "an existing directory is "
+                      "never deleted (nor its content replaced)",
+                      "%r, created by someone else during the transfer, was "
+                      "%s" % (k, "removed" if a is None else "overwritten"))
     for k in sorted(changed):
         b, a = before.get(k), after.get(k)
         if allowed(k) and k != rel_dest and b is not None and b[0] != "dir":
